@@ -12,6 +12,7 @@ import (
 	"path"
 	"path/filepath"
 	"strings"
+	"syscall"
 
 	"github.com/emersion/go-webdav/internal"
 )
@@ -69,8 +70,8 @@ func fileInfoFromOS(p string, fi os.FileInfo) *FileInfo {
 	}
 }
 
-func errFromOS(err error) error {
-	// Remove paths from OS errors so they're not returned to the user
+// stripPath removes paths from OS errors so they're not returned to the user
+func stripPath(err error) error {
 	var perr *fs.PathError
 	var lerr *os.LinkError
 	if errors.As(err, &perr) {
@@ -78,8 +79,20 @@ func errFromOS(err error) error {
 	} else if errors.As(err, &lerr) {
 		err = fmt.Errorf("%s: %w", lerr.Op, lerr.Err)
 	}
+	return err
+}
 
-	if errors.Is(err, fs.ErrNotExist) {
+func errFromOS(err error) error {
+	var herr *internal.HTTPError
+	if errors.As(err, &herr) {
+		return err // already mapped
+	}
+
+	err = stripPath(err)
+
+	if errors.Is(err, fs.ErrNotExist) || errors.Is(err, syscall.ENOTDIR) {
+		// ENOTDIR: an ancestor is not a collection, so the resource doesn't
+		// exist either
 		return NewHTTPError(http.StatusNotFound, err)
 	} else if errors.Is(err, fs.ErrPermission) {
 		return NewHTTPError(http.StatusForbidden, err)
@@ -88,6 +101,18 @@ func errFromOS(err error) error {
 	} else {
 		return err
 	}
+}
+
+// errFromOSCreate is errFromOS for a call which creates a file or directory:
+// RFC 4918 asks for 409 Conflict when there is no parent collection to create
+// it in, and a collection can't be written to like a file
+func errFromOSCreate(err error) error {
+	if errors.Is(err, fs.ErrNotExist) || errors.Is(err, syscall.ENOTDIR) {
+		return NewHTTPError(http.StatusConflict, stripPath(err))
+	} else if errors.Is(err, syscall.EISDIR) {
+		return NewHTTPError(http.StatusMethodNotAllowed, stripPath(err))
+	}
+	return errFromOS(err)
 }
 
 func (fs LocalFileSystem) Stat(ctx context.Context, name string) (*FileInfo, error) {
@@ -168,7 +193,7 @@ func (fs LocalFileSystem) Create(ctx context.Context, name string, body io.ReadC
 
 	wc, err := os.Create(p)
 	if err != nil {
-		return nil, false, errFromOS(err)
+		return nil, false, errFromOSCreate(err)
 	}
 	defer wc.Close()
 
@@ -217,7 +242,7 @@ func (fs LocalFileSystem) Mkdir(ctx context.Context, name string) error {
 	if err := os.Mkdir(p, 0755); os.IsExist(err) {
 		return NewHTTPError(http.StatusMethodNotAllowed, errFromOS(err))
 	} else {
-		return errFromOS(err)
+		return errFromOSCreate(err)
 	}
 }
 
@@ -229,10 +254,8 @@ func copyRegularFile(src, dst string, perm os.FileMode) error {
 	defer srcFile.Close()
 
 	dstFile, err := os.OpenFile(dst, os.O_RDWR|os.O_CREATE|os.O_TRUNC, perm)
-	if os.IsNotExist(err) {
-		return NewHTTPError(http.StatusConflict, err)
-	} else if err != nil {
-		return errFromOS(err)
+	if err != nil {
+		return errFromOSCreate(err)
 	}
 	defer dstFile.Close()
 
@@ -296,7 +319,7 @@ func (fs LocalFileSystem) Copy(ctx context.Context, src, dst string, options *Co
 
 		if fi.IsDir() {
 			if err := os.Mkdir(dstPath, srcPerm); err != nil {
-				return errFromOS(err)
+				return errFromOSCreate(err)
 			}
 		} else {
 			if err := copyRegularFile(srcPath, dstPath, srcPerm); err != nil {
@@ -350,7 +373,8 @@ func (fs LocalFileSystem) Move(ctx context.Context, src, dst string, options *Mo
 	}
 
 	if err := os.Rename(srcPath, dstPath); err != nil {
-		return false, errFromOS(err)
+		// The source exists, so this is about the destination's parent
+		return false, errFromOSCreate(err)
 	}
 
 	return created, nil
